@@ -437,6 +437,9 @@ def run_quant(prop, tier, seed):
               "non-trivial = cases whose operands are commensurable and the operation returned (value judged) or whose "
               "operands are incommensurable (rejection judged)")
     v.samples = samples
+    if prop == "C12":
+        import conversions
+        conversions.node_histories_for(v, "C12", tier, seed)
     if prop in ("C03", "C06", "C12"):
         import ledger
         ledger.run(v, prop, tier, seed)     # code -> spec: recorded programs over the shipped units
